@@ -68,12 +68,7 @@ theorem foldl_write_counter (c : RtCtx) (i : Nat) (val : Nat → Nat) (j : Nat) 
 
 theorem setStrAlloc_counter (c : RtCtx) (σ : CState) (isStart : Bool) (i j : Nat) :
     ((c.setStrAlloc σ isStart i).str j).counter = (σ.str j).counter := by
-  simp only [RtCtx.setStrAlloc]
-  split
-  · rw [str_setStr]; split
-    · next h => rw [h.1]
-    · rfl
-  · exact onDemandAlloc_counter c σ i j
+  exact onDemandAlloc_counter c σ i j
 
 /-- An event on buffer `i` does not change the counter of another buffer. -/
 theorem apply_counter_other (c : RtCtx) (σ : CState) (isStart : Bool) (a : AEv) (j : Nat)
